@@ -24,6 +24,7 @@ func checkC13(c *Ctx) {
 	c.ackUpdatesOwnSlot()
 	c.headOnlyRelease()
 	c.growRules()
+	c.occupancyByCount()
 	lockBalance(c, func(cl string) bool { return strings.HasPrefix(cl, "sessions.Ackqueue.") }, "ack-queue")
 	c.queueMethodsLocked()
 }
@@ -371,4 +372,157 @@ func (c *Ctx) queueMethodsLocked() {
 	}
 	c.R.Rule("G1-guarded-by", "state that the code protects with a mutex somewhere is accessed with that mutex held everywhere (helpers inherit their callers' locksets); constructors are exempt.")
 	c.R.Count("exported Ackqueue methods", n)
+}
+
+// fieldsRead: the names of Ackqueue fields a condition depends on (through helper getters).
+func (c *Ctx) fieldsRead(v ssa.Value) map[string]bool {
+	out := map[string]bool{}
+	seen := map[ssa.Value]bool{}
+	eff := c.Effects()
+	var walk func(v ssa.Value)
+	walk = func(v ssa.Value) {
+		if v == nil || seen[v] {
+			return
+		}
+		seen[v] = true
+		switch x := v.(type) {
+		case *ssa.BinOp:
+			walk(x.X)
+			walk(x.Y)
+		case *ssa.UnOp:
+			if x.Op.String() == "*" {
+				p := ir.PathOf(x.X)
+				if len(p.Fields) > 0 {
+					out[p.Fields[len(p.Fields)-1]] = true
+				}
+				return
+			}
+			walk(x.X)
+		case *ssa.Phi:
+			for _, e := range x.Edges {
+				walk(e)
+			}
+		case *ssa.Convert:
+			walk(x.X)
+		case *ssa.Call:
+			if callee := x.Common().StaticCallee(); callee != nil {
+				if sum := eff.Funcs[callee]; sum != nil {
+					for _, ac := range sum.Accesses {
+						if !ac.Write && len(ac.Path.Fields) > 0 {
+							out[ac.Path.Fields[len(ac.Path.Fields)-1]] = true
+						}
+					}
+				}
+			}
+			for _, a := range x.Common().Args {
+				walk(a)
+			}
+		}
+	}
+	walk(v)
+	return out
+}
+
+// occupancyByCount: emptiness and fullness of the ring are decided on the count
+// field (head == tail is ambiguous in a ring that fills completely), and a
+// released ping entry is reset as a whole.
+func (c *Ctx) occupancyByCount() {
+	acked := c.P.Func("sessions", "Ackqueue", "Acked")
+	insert := c.P.Func("sessions", "Ackqueue", "insert")
+	rm := c.P.Func("sessions", "Ackqueue", "removeHead")
+	if acked == nil || insert == nil || rm == nil {
+		return
+	}
+	// the release loop's guard
+	for _, l := range ir.Loops(acked) {
+		iff, ok := l.Header.Instrs[len(l.Header.Instrs)-1].(*ssa.If)
+		if !ok {
+			continue
+		}
+		fr := c.fieldsRead(iff.Cond)
+		c.R.Check(fr["count"], ruleT5, "Acked:emptiness-decided-on-count", c.P.InstrPos(iff), "the release loop runs while count != 0", "the release loop's emptiness test does not read the count field (reads "+keysOf(fr)+"): with head == tail a completely full ring looks empty and nothing is released")
+	}
+	// the growth trigger in insert
+	for _, b := range insert.Blocks {
+		iff, ok := b.Instrs[len(b.Instrs)-1].(*ssa.If)
+		if !ok {
+			continue
+		}
+		reachesGrow := false
+		for _, s := range b.Succs {
+			for _, in := range s.Instrs {
+				if call, ok := in.(*ssa.Call); ok && call.Common().StaticCallee() != nil && call.Common().StaticCallee().Name() == "grow" {
+					reachesGrow = true
+				}
+			}
+		}
+		if !reachesGrow {
+			continue
+		}
+		fr := c.fieldsRead(iff.Cond)
+		c.R.Check(fr["count"] && fr["size"], ruleT5, "insert:fullness-decided-on-count", c.P.InstrPos(iff), "growth is triggered when count == size", "the growth trigger does not compare count with size (reads "+keysOf(fr)+"): a full ring is overwritten or an empty one grown")
+	}
+	// the ping slot: released => reset as a whole
+	for _, b := range acked.Blocks {
+		var app *ssa.Call
+		for _, in := range b.Instrs {
+			if call, ok := in.(*ssa.Call); ok {
+				if bi, ok := call.Common().Value.(*ssa.Builtin); ok && bi.Name() == "append" {
+					if v := appendedValue(call); v != nil {
+						if p := ir.PathOf(v); len(p.Fields) > 0 && p.Fields[len(p.Fields)-1] == "ping" {
+							app = call
+						}
+					}
+				}
+			}
+		}
+		if app == nil {
+			continue
+		}
+		whole := false
+		for _, in := range b.Instrs {
+			if st, ok := in.(*ssa.Store); ok && ir.InstrIndex(st) > ir.InstrIndex(app) {
+				p := ir.PathOf(st.Addr)
+				if len(p.Fields) > 0 && p.Fields[len(p.Fields)-1] == "ping" {
+					whole = true // a store to the ping field itself (the whole struct)
+				}
+			}
+		}
+		c.R.Check(whole, ruleT5, "Acked:released-ping-slot-reset", c.P.InstrPos(app), "the ping slot is replaced as a whole after its entry was released", "after releasing the ping entry the slot is not reset as a whole (type, buffers and callback stay): a duplicate PINGRESP re-marks it and the completion fires a second time")
+	}
+}
+
+func keysOf(m map[string]bool) string {
+	var s []string
+	for k := range m {
+		s = append(s, k)
+	}
+	sort.Strings(s)
+	return strings.Join(s, ",")
+}
+
+// appendedValue: the single value appended by append(xs, v) where v is a struct (stored into a 1-element array).
+func appendedValue(call *ssa.Call) ssa.Value {
+	a := call.Common().Args
+	if len(a) != 2 {
+		return nil
+	}
+	sl, ok := a[1].(*ssa.Slice)
+	if !ok {
+		return nil
+	}
+	al, ok := sl.X.(*ssa.Alloc)
+	if !ok || al.Referrers() == nil {
+		return nil
+	}
+	for _, ref := range *al.Referrers() {
+		if ia, ok := ref.(*ssa.IndexAddr); ok && ia.Referrers() != nil {
+			for _, r2 := range *ia.Referrers() {
+				if st, ok := r2.(*ssa.Store); ok {
+					return st.Val
+				}
+			}
+		}
+	}
+	return nil
 }
